@@ -66,6 +66,16 @@ pub fn print_all(v: &Value) -> Result<Vec<u8>, String> {
             lexpr::to_writer_custom(&mut w, v, lexpr::print::Options::default()).map_err(|e| e.to_string())?;
             w
         }),
+        ("to_writer(sink accepting 1 byte per call)", {
+            let mut w = crate::mon::io::ShortWriter::new(crate::mon::io::WriteSchedule::Max(1), Rng::new(1, "c01-sink", 0, 0));
+            lexpr::to_writer(&mut w, v).map_err(|e| e.to_string())?;
+            w.out
+        }),
+        ("Printer::print(sink accepting 3 bytes per call)", {
+            let mut p = lexpr::Printer::new(crate::mon::io::ShortWriter::new(crate::mon::io::WriteSchedule::Max(3), Rng::new(1, "c01-sink", 0, 1)));
+            p.print(v).map_err(|e| e.to_string())?;
+            p.into_inner().out
+        }),
         ("Display", format!("{}", v).into_bytes()),
         ("ToString", v.to_string().into_bytes()),
     ];
